@@ -1,5 +1,6 @@
 """C11 — each reachable schema file is read exactly once; others never matter."""
 from engine.rulekit import inline as I
+from engine.rulekit import hir as Hh
 from engine.rulekit import mir as M
 from engine.rulekit import scans
 from rules import c12 as C12
@@ -252,11 +253,66 @@ def run(ck, F):
         else:
             ck.violation("R4", f"registration#{'add' if is_add else 'new'}", B.term(bb).get("sp"),
                          f"a file is not registered as (file_name(), read_to_string(path)) of one path (key ok: {key_ok}, content ok: {xml_ok})", fn=ub["path"])
+    rule_all_siblings_visited(ck, F, ub)
     # content of a sibling flows only into Files::add / Files::new
     for bb, t in B.calls_to("fs::read_to_string"):
         flows = M.result_flow(B, bb, t)
         if {k for k, _ in flows} != {"propagated"}:
             ck.violation("R4", "read-result", B.term(bb).get("sp"), f"read_to_string result is {flows}", fn=ub["path"])
+
+
+TRUNCATING = ("take", "take_while", "map_while", "skip", "skip_while", "step_by", "scan", "nth", "last", "find", "find_map", "position", "peekable",
+              "fuse", "rev", "min_by_key", "max_by_key", "next")
+NOT_FOLLOWING = ("std::fs::DirEntry::file_type", "std::fs::DirEntry::metadata", "std::fs::symlink_metadata", "std::path::Path::symlink_metadata",
+                 "std::path::Path::is_symlink", "std::fs::FileType::is_symlink")
+
+
+def rule_all_siblings_visited(ck, F, ub, rule="R4"):
+    """Which sibling files are registered may depend on the files themselves only, not on where the directory lists them: the walk over
+    `read_dir` visits every entry (it ends on exhaustion or on an error that is returned; no adaptor that stops early or reorders),
+    and what a sibling *is* is asked of the path (`Path::is_file` follows symbolic links; `DirEntry::file_type` / `metadata` do not,
+    so a schema that is a link would be left out and its import fail)."""
+    from rules import c02 as C02
+    fns = [ub["path"]] + [c for c in sorted(scans.reachable(scans.call_graph(F.lib), [ub["path"]])) if c.startswith(("utils::", "<utils::"))]
+    n_walks = 0
+    for fn in dict.fromkeys(fns):
+        b = F.lib.body(fn)
+        if b is None:
+            continue
+        if b.get("mir"):
+            Bm = M.Body(b)
+            for bb, t in Bm.calls():
+                d = M.Body.callee_decl(t) or ""
+                if d in NOT_FOLLOWING:
+                    ck.violation(rule, f"sibling-kind:{d.rsplit('::', 1)[-1]}", Bm.term(bb).get("sp"),
+                                 f"what a directory entry is, is asked with `{d.rsplit('::', 2)[-2]}::{d.rsplit('::', 1)[-1]}`, which does not follow symbolic "
+                                 f"links: a sibling schema that is a link is not registered and the import of it fails", fn="")
+        if b.get("hir") is None or b.get("closure"):
+            continue
+        nb = Hh.norm_body(b)
+        for x in Hh.exprs(nb["value"]):
+            src = None
+            if x.get("k") == "For":
+                src = C02._iter_source(nb, x)
+                if "read_dir" not in src:
+                    continue
+                n_walks += 1
+                exits = []
+                C02._find_exits(x["body"], exits, in_closure=False)
+                for kind, node in exits:
+                    ck.violation(rule, f"siblings:{kind}", Hh.sp(node), f"the walk over the directory is left with `{kind}` before all entries were seen: which "
+                                 f"siblings are registered depends on the order in which the directory lists them", fn="")
+            elif x.get("k") == "MethodCall" and x["name"] in ("for_each", "try_for_each", "collect", "count", "fold", "try_fold", "extend") and "read_dir" in Hh.describe(x["recv"]):
+                src = Hh.describe(x["recv"])
+                n_walks += 1
+            if src:
+                bad = [a for a in TRUNCATING if f".{a}(" in src]
+                if bad:
+                    ck.violation(rule, f"siblings:adapter:{bad[0]}", Hh.sp(x), f"the directory entries pass through `{bad[0]}`, which can end the walk early or "
+                                 f"reorder it: which siblings are registered depends on the order in which the directory lists them", fn="")
+    if n_walks and not any(o["status"] == "violated" and ("|siblings:" in o["key"] or "|sibling-kind:" in o["key"]) for o in ck.obligations):
+        ck.ok(rule, "siblings:all-visited", ub["span"], "the walk over the directory visits every entry and asks the path what it is")
+    ck.floor(rule, "walks over read_dir", n_walks, 1)
 
 
 def _root_is_files(B, o):
